@@ -57,3 +57,14 @@ VARIANTS = [
         dict(file=CLI, old="    leftover_warnings = ignore_warnings_and_count(COUNTER, args.maxwarn)\n    if leftover_warnings:", new="    leftover = ignore_warnings_and_count(COUNTER, args.maxwarn)\n    if leftover:"),
         dict(file=CLI, old='            "-maxwarn flag. No output files will be "\n            "written. Consider fixing the warnings, or if you are sure"\n            " they are harmless, use the -maxwarn flag.",\n            leftover_warnings,', new='            "-maxwarn flag. No output files will be "\n            "written. Consider fixing the warnings, or if you are sure"\n            " they are harmless, use the -maxwarn flag.",\n            leftover,')]),
 ]
+VARIANTS += [
+    dict(name='benign-gate-greater-than-zero', expect='silent', edits=[
+        dict(file=CLI, old="    if leftover_warnings:\n        LOGGER.error(", new="    if leftover_warnings > 0:\n        LOGGER.error(")]),
+    dict(name='benign-gate-equals-zero-inverted', expect='silent', edits=[
+        dict(file=CLI, old="        sys.exit(2)\n    else:\n        DeferredFileWriter().write()\n        vermouth.Quoter().run_system(system)", new="        sys.exit(2)\n    if leftover_warnings == 0:\n        DeferredFileWriter().write()\n        vermouth.Quoter().run_system(system)")]),
+    dict(name='symlink-resolved (seed C07_c)', expect='fire', key='PROV-destination-identity', edits=[
+        dict(file=FW, old="        path = path.parent.resolve() / path.name\n", new="        path = path.resolve()\n")]),
+    dict(name='count-before-output-step (seed C07_d)', expect='fire', key='MPT-gate|count-last', edits=[
+        dict(file=CLI, old="    leftover_warnings = ignore_warnings_and_count(COUNTER, args.maxwarn)\n", new=""),
+        dict(file=CLI, old="    # Write a PDB file.\n", new="    leftover_warnings = ignore_warnings_and_count(COUNTER, args.maxwarn)\n    # Write a PDB file.\n")]),
+]
